@@ -538,6 +538,8 @@ pub struct WorldCfg {
     pub style: KeyDerivationStyle,
     pub policy: SimplePolicy,
     pub now_secs: u64,
+    /// trusted TXO oracle keys the node is configured with (plain memory-store worlds)
+    pub trusted_oracles: Vec<PublicKey>,
 }
 
 impl WorldCfg {
@@ -548,6 +550,7 @@ impl WorldCfg {
             style: KeyDerivationStyle::Native,
             policy: make_default_simple_policy(Network::Testnet),
             now_secs: 1_700_000_000,
+            trusted_oracles: vec![],
         }
     }
 }
@@ -623,6 +626,9 @@ pub struct World {
     pub restarts: u32,
     /// storage fault injection (plain memory-store worlds only)
     pub fault: std::sync::Arc<FaultSwitch>,
+    /// backup mode: the node persists through vls-persist's BackupPersister(main = `store`,
+    /// backup = this store)
+    pub backup: Option<Arc<MemPersister>>,
 }
 
 const SIGNER_ID: [u8; 16] = [3u8; 16];
@@ -652,7 +658,7 @@ impl World {
             starting_time_factory: FixedStartingTimeFactory::new(1, 1),
             persister: Arc::new(FaultyPersist { inner: store.clone(), switch: fault.clone() }),
             clock: clock.clone(),
-            trusted_oracle_pubkeys: vec![],
+            trusted_oracle_pubkeys: cfg.trusted_oracles.clone(),
         };
         let mut config = NodeConfig::new(cfg.network);
         config.key_derivation_style = cfg.style;
@@ -661,7 +667,7 @@ impl World {
         node.add_allowlist(&[]).expect("allowlist");
         store.new_node(&node.get_id(), &config, &*node.get_state()).expect("new_node");
         store.new_tracker(&node.get_id(), &node.get_tracker()).expect("new_tracker");
-        World { cfg, secp: Secp256k1::new(), node, store, cloud: None, clock, vfactory, chans: vec![], restarts: 0, fault }
+        World { cfg, secp: Secp256k1::new(), node, store, cloud: None, clock, vfactory, chans: vec![], restarts: 0, fault, backup: None }
     }
 
     /// A world whose node persists through CloudKVVStore<MemoryKVVStore>.
@@ -685,7 +691,68 @@ impl World {
         cloud.new_tracker(&node.get_id(), &node.get_tracker()).expect("new_tracker");
         let _ = cloud.prepare();
         cloud.commit().expect("commit");
-        World { cfg, secp: Secp256k1::new(), node, store, cloud: Some(cloud), clock, vfactory, chans: vec![], restarts: 0, fault: std::sync::Arc::new(FaultSwitch::default()) }
+        World { cfg, secp: Secp256k1::new(), node, store, cloud: Some(cloud), clock, vfactory, chans: vec![], restarts: 0, fault: std::sync::Arc::new(FaultSwitch::default()), backup: None }
+    }
+
+    /// A world whose node persists through BackupPersister(main, backup), both in-memory KVV
+    /// persisters; `store` is the main one, `backup` the other.
+    pub fn new_backup(cfg: WorldCfg, vfactory: Arc<dyn ValidatorFactory>) -> World {
+        let store: Arc<MemPersister> = Arc::new(KVVPersister(MemoryKVVStore::new(SIGNER_ID), JsonFormat));
+        let backup: Arc<MemPersister> = Arc::new(KVVPersister(MemoryKVVStore::new(SIGNER_ID), JsonFormat));
+        let clock = Arc::new(ManualClock::new(Duration::from_secs(cfg.now_secs)));
+        let fault = std::sync::Arc::new(FaultSwitch::default());
+        let composite: Arc<dyn Persist> = Arc::new(vls_persist::backup_persister::BackupPersister::new(
+            FaultyPersist { inner: store.clone(), switch: fault.clone() },
+            FaultyPersist { inner: backup.clone(), switch: std::sync::Arc::new(FaultSwitch::default()) },
+        ));
+        let services = NodeServices {
+            validator_factory: vfactory.clone(),
+            starting_time_factory: FixedStartingTimeFactory::new(1, 1),
+            persister: composite.clone(),
+            clock: clock.clone(),
+            trusted_oracle_pubkeys: vec![],
+        };
+        let mut config = NodeConfig::new(cfg.network);
+        config.key_derivation_style = cfg.style;
+        let node = Arc::new(Node::new(config, &cfg.seed, vec![], services));
+        node.add_allowlist(&[]).expect("allowlist");
+        composite.new_node(&node.get_id(), &config, &*node.get_state()).expect("new_node");
+        composite.new_tracker(&node.get_id(), &node.get_tracker()).expect("new_tracker");
+        World { cfg, secp: Secp256k1::new(), node, store, cloud: None, clock, vfactory, chans: vec![], restarts: 0, fault, backup: Some(backup) }
+    }
+
+    /// Dump of the backup store (backup mode).
+    pub fn backup_dump(&self) -> Vec<(String, u64, Vec<u8>)> {
+        match &self.backup {
+            Some(b) => b.0.get_prefix("").unwrap().map(|k| { let (k, (v, val)) = k.into_inner(); (k, v, val) }).collect(),
+            None => vec![],
+        }
+    }
+
+    /// Backup mode: a second signer restored from a copy of the BACKUP store alone.
+    pub fn restore_twin_from_backup(&self) -> Out<Arc<Node>> {
+        let dump = self.backup_dump();
+        let vf = self.vfactory.clone();
+        let clock = self.clock.clone();
+        let seed = self.cfg.seed;
+        call(move || {
+            let ms = MemoryKVVStore::new(SIGNER_ID);
+            ms.put_batch(dump.into_iter().map(|(k, v, val)| KVV(k, (v, val))).collect()).expect("copy store");
+            let store: Arc<MemPersister> = Arc::new(KVVPersister(ms, JsonFormat));
+            let services = NodeServices {
+                validator_factory: vf,
+                starting_time_factory: FixedStartingTimeFactory::new(1, 1),
+                persister: store.clone(),
+                clock,
+                trusted_oracle_pubkeys: vec![],
+            };
+            let nodes = store.get_nodes().map_err(|e| Status::internal(format!("get_nodes: {:?}", e)))?;
+            if nodes.len() != 1 {
+                return Err(Status::internal(format!("{} nodes in the backup store", nodes.len())));
+            }
+            let (node_id, entry) = nodes.into_iter().next().unwrap();
+            Node::restore_node(&node_id, entry, &seed, services)
+        })
     }
 
     /// Run one request inside the persister's transaction envelope (no-op envelope for the
@@ -814,6 +881,7 @@ impl World {
         let clock = self.clock.clone();
         let seed = self.cfg.seed;
         let fault = self.fault.clone();
+        let oracles = self.cfg.trusted_oracles.clone();
         call(move || {
             let ms = MemoryKVVStore::new(SIGNER_ID);
             ms.put_batch(dump.into_iter().map(|(k, v, val)| KVV(k, (v, val))).collect()).expect("copy store");
@@ -823,7 +891,7 @@ impl World {
                 starting_time_factory: FixedStartingTimeFactory::new(1, 1),
                 persister: Arc::new(FaultyPersist { inner: store.clone(), switch: fault }),
                 clock,
-                trusted_oracle_pubkeys: vec![],
+                trusted_oracle_pubkeys: oracles,
             };
             let nodes = store.get_nodes().map_err(|e| Status::internal(format!("get_nodes: {:?}", e)))?;
             if nodes.len() != 1 {
